@@ -49,6 +49,17 @@ Theorem C03_sound : forall S D,
 Proof. exact sound_vis. Qed.
 Print Assumptions C03_sound.
 
+(** the site-level statement behind C03_sound, for every amount of fuel of the specification-side enumeration
+    (so no site is lost to fuel): each reached site satisfies every site rule ([site_ok]), every variable used at it is
+    defined by the operation and allowed at its position ([use_ok]), and no spread on the way closes a cycle *)
+Theorem C03_sound_sites : forall S D,
+  schema_wf S = true -> check_operation_document S D = [] ->
+  forall o fv, In o (doc_ops D) ->
+    Forall (site_good S D (op_vars o))
+           (flat_map (vsites_sel S (vis_enter fv S D []) (sp_root S (op_type o))) (selset_sels (op_sel o))).
+Proof. intros S D Hw Hc o fv Hin. exact (vis_sites_good_any_fuel S D Hw Hc o fv Hin). Qed.
+Print Assumptions C03_sound_sites.
+
 (** named instances *)
 Theorem C03_sound_fields_exist : forall S D,
   schema_wf S = true -> check_operation_document S D = [] -> rule_ok_vis S D R_fields_exist = true.
